@@ -29,7 +29,17 @@ Two further dimensions of the quantifier are driven the same way (spec action ->
   the random histories);
 * what creating the logger object does: the directories are listed BEFORE log_open (set-up check and "reset" line)
   and AFTER it ("restart" line carrying the files): a restart is an operation judged like any other; crash loops of
-  more short runs than the configured count (generator mode "shortruns", and in the random histories)."""
+  more short runs than the configured count (generator mode "shortruns", and in the random histories);
+* no room on the log file system (LogNoRoomOn/Off, LogWriteNoRoomNoRoll/Roll -> `log_write` with "noroom":
+  RLIMIT_FSIZE=0 around the RollingLogger call, so renames, removals and the creation of empty files work and
+  anything that puts data into a file fails -> {"e":"fault","kind":"noroom"|"room"}): the code's roll needs no room
+  and completes, the append is refused; the count bound must hold after every write (generator mode "noroom");
+  DiskBounds_variant_copyroll.cfg is the copy + truncate design, which TLC must reject;
+* an entry of the dump directory that cannot be stat()ed (DumpListingBreaks/Heals, DumpWriteSkipped -> a dangling
+  symbolic link in the directory while write_all runs -> {"e":"fault","kind":"blind"|"unblind"}): >= 10 rule-set
+  changes under it; the dump bound and "a rule-set change never adds at or above the bound" must hold (generator mode
+  "dumpblind"); DiskBounds_variant_writefirst.cfg is the write-before-clean-up design, which TLC must reject."""
+import concurrent.futures
 import json
 import os
 import random
@@ -79,6 +89,11 @@ ASSUME = [
     "File::create succeeds and every write to a regular file fails with EFBIG, the path ENOSPC takes through "
     "json_write_to_file (the driver verifies on a probe file that writes do fail); 'files in the event directory' "
     "are all its entries, whatever their names; the telemetry reader removes *.json files only",
+    "'no room on the log file system' is produced with RLIMIT_FSIZE=0 around one RollingLogger write (EFBIG where a "
+    "full disk gives ENOSPC; no partial appends); the unstat()able entry of the dump directory is a dangling "
+    "symbolic link that exists while write_all runs (the directory is shared with the rolling logs: left there "
+    "persistently it also breaks RollingLogger's clean-up on the unchanged tree, see "
+    "coverage.unstatable_entry_and_rolls, information only)",
     "a graceful stop is event_logger::stop() followed by virtual time until the logger task has ended; stop "
     "requests are handled at the loop's next wake-up, i.e. before any further periodic flush",
 ]
@@ -214,6 +229,9 @@ class World:
         self.kills = 0                                       # runs killed inside a roll (real SIGKILL)
         self.tmp_seen = 0                                    # most leftover temp files seen in the event directory
         self.found = ([], [])
+        self.noroom = False                                  # the log file system has no room at present
+        self.blind = False                                   # the dump directory holds an entry that cannot be stat()ed
+        self.blind_dumps = 0                                 # rule-set changes made while it did
         self.ndump = 0
 
     # --- setup ---------------------------------------------------------------------------------------------------
@@ -353,7 +371,7 @@ class World:
     # --- operations ----------------------------------------------------------------------------------------------
     def write(self, nbytes, key="a", many=None):
         self.tok += 1
-        cmd = {"op": "log_write", "key": key, "token": "w%d" % self.tok}
+        cmd = {"op": "log_write", "key": key, "token": "w%d" % self.tok, "noroom": self.noroom}
         if many:
             cmd["many"] = many
         else:
@@ -369,7 +387,7 @@ class World:
         ok = bool(r.get("ok"))
         if not ok:
             self.refused += 1
-            if r.get("panic") or key not in self.pinned:     # refusals under the fault are expected, the rest is noted
+            if r.get("panic") or not (key in self.pinned or self.noroom):    # refusals under a fault are expected
                 self.notes.append({"op": "write", "err": r.get("err"), "panic": r.get("panic")})
         v = self.log_view(key, r["files"])
         row = {"e": "write", "n": nbytes, "ok": int(ok), "files": v["files"]}
@@ -377,6 +395,27 @@ class World:
         if len(v["files"]) >= self.conf["maxCount"] or not ok:
             self.nontrivial = True
         return {"arch": v["arch"], "cur": v["cur"], "dumps": self.dump_view(r["files"]), "refused": not ok}
+
+    def room(self, has_room):
+        """the environment: the log file system runs out of room (writes of all loggers from now on happen with no
+        data block to be had) / has room again"""
+        if self.noroom == (not has_room):
+            return {}
+        self.noroom = not has_room
+        row = {"e": "fault", "kind": "room" if has_room else "noroom"}
+        self.rows.append(row)
+        for k in self.rows_extra:
+            self.rows_extra[k].append(dict(row))
+        return {}
+
+    def blindness(self, on):
+        """the environment: a dangling symbolic link sits in the directory of the dumps while rule sets change (it is
+        there for the duration of each write_all only: the directory is shared with the rolling logs)"""
+        if self.blind == on:
+            return {}
+        self.blind = on
+        self.rows.append({"e": "fault", "kind": "blind" if on else "unblind"})
+        return {}
 
     def pin(self, key="a", on=True):
         """the environment: the rename of this logger's current file fails from now on (on) / works again"""
@@ -437,7 +476,15 @@ class World:
         # rule-set ids are whatever the host sends: they neither grow nor sort like time (9 -> 10, roll-backs)
         tag = DUMP_TAGS[self.ndump % len(DUMP_TAGS)]
         self.ndump += 1
-        r = self.proc.call({"op": "dump_write", "dir": self.logs, "max": self.conf["maxDumps"], "tag": tag})
+        link = os.path.join(self.logs, "c19.latest")
+        if self.blind:
+            os.symlink("c19-target-rolled-away", link)       # dangling: stat() of this entry fails
+            self.blind_dumps += 1
+        try:
+            r = self.proc.call({"op": "dump_write", "dir": self.logs, "max": self.conf["maxDumps"], "tag": tag})
+        finally:
+            if self.blind:
+                os.unlink(link)
         if not r.get("ok"):
             self.notes.append({"op": "dump", "panic": r.get("panic")})
         d = self.dump_view(r["files"])
@@ -534,6 +581,12 @@ def apply_step(w, step, rnd):
         return w.evstop(fail=(op == "stopfail" or bool(step.get("fail"))))
     if op in ("pin", "unpin"):
         return w.pin(step.get("key", "a"), on=(op == "pin"))
+    if op in ("noroom", "room"):
+        if op == "noroom" and step.get("fill") and w.cur_size(step.get("key", "a")) < w.conf["limit"]:
+            w.fill(step.get("key", "a"))
+        return w.room(op == "room")
+    if op in ("blind", "unblind"):
+        return w.blindness(op == "blind")
     if op == "kill":
         if step.get("fill") and w.cur_size(step.get("key", "a")) < w.conf["limit"]:
             w.fill(step.get("key", "a"))
@@ -629,6 +682,20 @@ def random_history(rnd, conf, nops, big=False):
             for _ in range(conf["maxCount"] + 3):
                 steps.append({"op": "write", "bytes": rnd.choice([48, 64, 100]), "key": k, "many": False})
                 steps.append({"op": "restart"})
+        elif y < 0.11:
+            # the log file system runs out of room just when a roll is due; logging goes on; room comes back
+            steps.append({"op": "noroom", "fill": True, "key": rnd.choice(["a", "a", "b"])})
+            for _ in range(rnd.choice([3, 6, 12])):
+                steps.append({"op": "write", "bytes": rnd.choice([48, 64, 100, 300]), "key": rnd.choice(["a", "a", "b"]),
+                              "many": rnd.random() < 0.3})
+            if rnd.random() < 0.2:
+                steps.append({"op": "restart"})
+            steps.append({"op": "room"})
+        elif y < 0.125:
+            # something in the dump directory cannot be stat()ed while the rule set changes again and again
+            steps.append({"op": "blind"})
+            steps += [{"op": "dump"}] * rnd.choice([3, 10, 12])
+            steps.append({"op": "unblind"})
         if x < 0.45:
             if big:
                 n = rnd.choice([lim // 10, lim // 3, lim // 2, lim - 1, lim, lim + 1, rnd.randint(48, lim // 2)])
@@ -687,6 +754,32 @@ def crash_window(rundir, exe, c):
                     "completed roll), LogCrashRecovers (the next completed roll removes all the excess)"}
 
 
+def unstatable_entry_and_rolls(rundir, exe):
+    """Information only (NOT part of the verdict; candidate finding reported to the maintainers of known_findings):
+    the dangling symbolic link of the dump dimension left in the directory PERSISTENTLY while the rolling log rolls.
+    RollingLogger::get_log_files stats every entry and fails as a whole, AFTER archive_file's rename: the clean-up
+    is skipped at every roll."""
+    conf = dict(MODEL)
+    w = World(rundir, exe, "unstat", conf)
+    try:
+        w.prefill([4, 4], 3, 0, 0)
+        w.reset_row()
+        os.symlink("c19-target-rolled-away", os.path.join(w.logs, "c19.latest"))
+        counts, refused = [], 0
+        for _ in range(14):
+            o = w.write(2 * UNIT)
+            counts.append(len(o["arch"]) + (1 if o["cur"] >= 0 else 0))
+            refused += int(o["refused"])
+    finally:
+        w.stop()
+    shutil.rmtree(w.root, ignore_errors=True)
+    return {"max_count": conf["maxCount"], "files_after_each_of_14_writes": counts, "writes_refused": refused,
+            "exceeds": max(counts) > conf["maxCount"],
+            "note": "a persistent dangling symlink in the log directory is outside C19's quantifier as checked here "
+                    "(the dump dimension places it only while write_all runs); with it in place the unchanged "
+                    "archive_file renames, then get_log_files()? fails before the removals: one more file per roll"}
+
+
 # ----------------------------------------------------------------------------------------------------------------
 
 def machine_of(why):
@@ -735,7 +828,8 @@ def run(c):
     # 1. the design: every state of the three machines (and of the log machine with crash points)
     c.tlc("DiskBounds", "DiskBounds_log.cfg", workers=8, timeout=300,
           required_actions=["LogWriteNoRoll", "LogWriteRollKeep", "LogWriteRollTrim", "LogWriteRollFails",
-                            "LogFaultOn", "LogFaultOff", "Restart"])
+                            "LogFaultOn", "LogFaultOff", "LogNoRoomOn", "LogNoRoomOff", "LogWriteNoRoomNoRoll",
+                            "LogWriteNoRoomRoll", "Restart"])
     c.tlc("DiskBounds", "DiskBounds_kill.cfg", workers=8, timeout=300,
           required_actions=["LogKilledInRoll", "LogWriteNoRoll", "LogWriteRollKeep", "LogWriteRollTrim", "Restart"])
     c.tlc("DiskBounds", "DiskBounds_event.cfg", workers=8, timeout=300,
@@ -743,7 +837,8 @@ def run(c):
                             "EvTickFails", "EvStopIdle", "EvStopWrite", "EvStopDrop", "EvStopFails",
                             "EvReaderRemove", "Restart"])
     c.tlc("DiskBounds", "DiskBounds_dumps.cfg", workers=8, timeout=300,
-          required_actions=["DumpWriteKeep", "DumpWriteTrim", "Restart"])
+          required_actions=["DumpWriteKeep", "DumpWriteTrim", "DumpWriteSkipped", "DumpListingBreaks",
+                            "DumpListingHeals", "Restart"])
     c.tlc("DiskBounds", "DiskBounds_crash.cfg", workers=8, timeout=600,
           required_actions=["LogKillBeforeAppend", "LogKillInArchive", "LogWriteRollTrim"])
     st0, tr0 = c.states, c.transitions
@@ -751,6 +846,15 @@ def run(c):
     c.states, c.transitions = st0, tr0
     if wit.invariant_violated != "LogCountLegalStrict":
         raise util.ToolError("crash-window witness: expected LogCountLegalStrict to fail with crash points")
+    # design variants that TLC must REJECT under the environment faults (the bounds are the same invariants):
+    # archive by copy + truncate with no room; write the new dump before the listing that may fail
+    for cfg, inv, act in (("DiskBounds_variant_copyroll.cfg", "LogCountBound", "LogWriteNoRoomCopyFails"),
+                          ("DiskBounds_variant_writefirst.cfg", "DumpCountBound", "DumpWriteNoCleanup")):
+        wit = c.tlc("DiskBounds", cfg, workers=4, timeout=300, expect_ok=False, coverage=False)
+        c.states, c.transitions = st0, tr0
+        if wit.invariant_violated != inv:
+            raise util.ToolError("design-variant witness %s: expected %s to fail (%s)" % (cfg, inv, act))
+        c.extra.setdefault("design_variants_rejected", []).append({"cfg": cfg, "violates": inv, "by": act})
     c.exhaustive = True
 
     # 2. behaviours from the spec (simulation, seeded): all machines interleaved + each machine alone
@@ -761,19 +865,28 @@ def run(c):
              ("evstop", 12, 60 if thorough else 8), ("logfault", 12, 40 if thorough else 6),
              ("rollkill", 14, 40 if thorough else 5),
              # ... ; flushes that fail after creating their temp file; crash loops of short runs
-             ("evfail", 12, 60 if thorough else 10), ("shortruns", 14, 30 if thorough else 8)]
+             ("evfail", 12, 60 if thorough else 10), ("shortruns", 14, 30 if thorough else 8),
+             # ... ; no room on the log file system when a roll is due; rule-set changes while the listing fails
+             ("noroom", 12, 40 if thorough else 5), ("dumpblind", 14, 40 if thorough else 6)]
     if thorough:
         plans += [("evfail", 30, 30), ("all", 40, 100), ("log", 60, 60), ("evstop", 30, 30), ("logfault", 30, 30), ("rollkill", 30, 20)]
     hists, directed = [], []
-    for k, (machine, depth, num) in enumerate(plans):
-        res = c.tlc("DiskBoundsGen", "DiskBoundsGen.cfg", subdir="gen", workers=1, coverage=False, timeout=900,
-                    simulate=num, depth=depth + 2, seed=c.seed + k,
-                    env={"GEN_DEPTH": depth, "GEN_MACHINE": machine})
-        c.states, c.transitions = st0, tr0          # simulation walks are not state-space coverage
+
+    def generate(k):
+        machine, depth, num = plans[k]
+        return c.tlc("DiskBoundsGen", "DiskBoundsGen.cfg", subdir="gen", workers=1, coverage=False, timeout=900,
+                     simulate=num, depth=depth + 2, seed=c.seed + k,
+                     env={"GEN_DEPTH": depth, "GEN_MACHINE": machine},
+                     metadir=os.path.join(util.BUILD, "tlc", "c19gen_%d_%d" % (os.getpid(), k)))
+    # the generator runs are independent single-worker TLC processes (each seeded by its position): a few at a time
+    with concurrent.futures.ThreadPoolExecutor(max_workers=4) as pool:
+        results = list(pool.map(generate, range(len(plans))))
+    c.states, c.transitions = st0, tr0              # simulation walks are not state-space coverage
+    for (machine, depth, num), res in zip(plans, results):
         hs = tlcmod.printed_json(res, "REPLAY")
         if not hs:
             raise util.ToolError("generator printed no behaviour for %s" % machine)
-        if machine in ("evstop", "logfault", "rollkill", "evfail", "shortruns"):
+        if machine in ("evstop", "logfault", "rollkill", "evfail", "shortruns", "noroom", "dumpblind"):
             directed += hs
         else:
             hists += hs
@@ -792,7 +905,7 @@ def run(c):
     rnd.shuffle(uniq)
     rnd.shuffle(directed)
     limit_n = 6000 if thorough else 420
-    uniq = directed[:limit_n // 3] + uniq[:limit_n]           # the cut never removes a whole directed family
+    uniq = directed[:limit_n * 2 // 3] + uniq[:limit_n]           # the cut never removes a whole directed family
     # anti-vacuity of the two directed dimensions: the behaviours to replay contain graceful stops with events
     # queued over a full directory, and writes that need a roll while the rename fails
     cap = MODEL["cap"]
@@ -815,6 +928,22 @@ def run(c):
     c.extra["failed_flushes_replayed"] = failed_flushes
     c.extra["flushes_over_directories_full_with_leftover_temp_files_replayed"] = flushes_over_leftovers
     c.extra["behaviours_with_more_restarts_than_max_count_plus_3"] = short_runs
+    noroom_rolls = sum(1 for h in uniq for i in range(1, len(h))
+                       if h[i]["op"] == "write" and h[i - 1].get("noroom") and h[i - 1]["cur"] >= MODEL["limit"] // UNIT
+                       and not h[i - 1].get("pin"))
+    noroom_after = sum(1 for h in uniq for i in range(2, len(h))
+                       if h[i]["op"] == "write" and h[i - 1].get("noroom") and h[i - 1]["op"] == "write")
+    blind_dumps = sum(1 for h in uniq for i in range(1, len(h)) if h[i]["op"] == "dump" and h[i - 1].get("blind"))
+    blind_full = sum(1 for h in uniq for i in range(1, len(h)) if h[i]["op"] == "dump" and h[i - 1].get("blind")
+                     and len(h[i - 1]["dumps"]) >= MODEL["maxDumps"])
+    c.extra["rolls_without_room_replayed"] = noroom_rolls
+    c.extra["writes_following_a_write_without_room_replayed"] = noroom_after
+    c.extra["rule_set_changes_while_the_listing_fails_replayed"] = blind_dumps
+    c.extra["of_which_with_the_configured_number_of_dumps_present"] = blind_full
+    if noroom_rolls < 5 or noroom_after < 10 or blind_dumps < 10 or blind_full < 5:
+        raise util.ToolError("generated behaviours do not exercise rolls without room (%d, then %d more writes) / "
+                             "rule-set changes under a failing listing (%d, %d at the bound)"
+                             % (noroom_rolls, noroom_after, blind_dumps, blind_full))
     if failed_flushes < 5 or flushes_over_leftovers < 3 or short_runs < 3:
         raise util.ToolError("generated behaviours do not exercise failed flushes (%d), flushes over leftovers at the "
                              "cap (%d), crash loops (%d)" % (failed_flushes, flushes_over_leftovers, short_runs))
@@ -856,7 +985,7 @@ def run(c):
     # 3. random histories, real constants (counts 5 / 30 / 5; the 10 MiB limit in the 'real' ones)
     nsmall, nops = (60, 400) if thorough else (10, 250)
     nbig = 4 if thorough else 1
-    rand_refused = rand_stops_full = rand_kills = 0
+    rand_refused = rand_stops_full = rand_kills = rand_blind = 0
     for i in range(nsmall + nbig):
         big = i >= nsmall
         conf = dict(REAL) if big else dict(REAL, limit=rnd.choice([256, 1000, 4096]))
@@ -877,6 +1006,7 @@ def run(c):
         rand_refused += w.refused
         rand_stops_full += w.stops_full
         rand_kills += w.kills
+        rand_blind += w.blind_dumps
         if i == 0 or big:
             c.sample({"kind": "random history, real counts" + (", real 10 MiB limit" if big else ""), "conf": conf,
                       "first_ops": steps[:12], "n_ops": len(steps), "observed_last_line": w.rows[-1]})
@@ -885,6 +1015,7 @@ def run(c):
     c.extra["random_histories_writes_refused"] = rand_refused
     c.extra["random_histories_stops_over_full_directory"] = rand_stops_full
     c.extra["random_histories_runs_killed_inside_a_roll"] = rand_kills
+    c.extra["random_histories_rule_set_changes_while_the_listing_fails"] = rand_blind
 
     # 4. I->S: everything observed, against the property
     nrows = sum(len(r) for _, r in segs)
@@ -938,6 +1069,10 @@ def run(c):
         c.extra["crash_window"] = crash_window(rundir, exe, c)
     except util.ToolError as ex:
         c.extra["crash_window"] = {"skipped": str(ex)[:300]}
+    try:
+        c.extra["unstatable_entry_and_rolls"] = unstatable_entry_and_rolls(rundir, exe)
+    except util.ToolError as ex:
+        c.extra["unstatable_entry_and_rolls"] = {"skipped": str(ex)[:300]}
     c.states, c.transitions = st0, tr0
     shutil.rmtree(os.path.join(rundir, "b"), ignore_errors=True)
     c.rule = ("states/transitions: exhaustive TLC runs of DiskBounds (log, event, dumps, log+crash points) with "
@@ -945,10 +1080,13 @@ def run(c):
               "on and off anywhere (log), runs killed inside a roll and restarted, up to 2 kills per completed roll "
               "(kill; states identified up to the sizes of archived files), graceful stops of the event logger "
               "and flushes failing after the creation of their temp file anywhere, directories found with leftover "
-              "temp files (event); S->I: behaviours "
+              "temp files (event), no room on the log file system anywhere (log), the dump directory unlistable "
+              "anywhere (dumps), two design variants rejected by TLC as witnesses (copy + truncate roll, write "
+              "before clean-up; not counted); S->I: behaviours "
               "simulated from the spec (seeded; undirected plus the directed families stop/restart cycles over full "
               "event directories, writes under the rename fault, runs killed inside a roll by a real SIGKILL, failed "
-              "flushes over directories with leftover temp files, crash loops of short runs) "
+              "flushes over directories with leftover temp files, crash loops of short runs, rolls without room, "
+              "rule-set changes under a failing listing) "
               "replayed on the real code, listing and accepted/refused compared after every operation; "
               "I->S: all observed lines plus seeded random histories with the real counts validated by TLC against "
               "the property; evaluations = operations executed on the real code; distinct_nontrivial = distinct "
